@@ -273,7 +273,7 @@ def clientItems (neg : Option Enc) (empty : Bool) (resp : CliResp) : List Item :
   let items := decodeAll neg resp.frames
   if (firstErr items).isSome || empty then items
   else match resp.trlStatus with
-    | some c => if c = 0 then items else items ++ [.err c .peerStatus]
+    | some c => if c = 0 then items else items ++ [.err c resp.peerCls]
     | none => items
 
 def call (cfg : CliCfg) (shape : Shape) (umdEnc umdAcc : List Bytes) (k : Nat)
@@ -285,7 +285,7 @@ def call (cfg : CliCfg) (shape : Shape) (umdEnc umdAcc : List Bytes) (k : Nat)
   | .error v => out [.err 12 .unsupported] [v]
   | .ok neg =>
     match resp.hdrStatus with
-    | some (c + 1) => out [.err (c + 1) .peerStatus] []
+    | some (c + 1) => out [.err (c + 1) resp.peerCls] resp.accVals
     | hs =>
       let empty := hs.isSome
       let items := clientItems (if empty then none else neg) empty resp
@@ -294,5 +294,25 @@ def call (cfg : CliCfg) (shape : Shape) (umdEnc umdAcc : List Bytes) (k : Nat)
         | .error (c, k) => out [.err c k] []
         | .ok f => out [.ok f] []
       else out items []
+
+/-! ### a tonic client talking to a tonic server -/
+
+/-- What the server's response looks like to the client's transport. -/
+def respOf (so : SrvObs) : CliResp :=
+  { encVals := so.enc,
+    hdrStatus := if so.stWhere = .hdr then some so.stCode else none,
+    frames := so.frames,
+    trlStatus := if so.stWhere = .trl then some so.stCode else none,
+    accVals := so.acc,
+    peerCls := so.stCls }
+
+/-- One call of a `client::Grpc` (no negotiation headers in the caller's metadata) against a
+`server::Grpc`: the prepared request is served, the response is read back. -/
+def pair (ccfg : CliCfg) (accS sndS : Slots) (shape : Shape) (k : Nat) (h : Handler) :
+    SrvObs × CliObs :=
+  let n := if shape.singleRequest then 1 else k
+  let pr := prepareRequest ccfg [] [] n
+  let so := serve accS sndS { shape, encVals := pr.1, accVals := pr.2.1, frames := pr.2.2 } h
+  (so, call ccfg shape [] [] k (respOf so))
 
 end Compression
